@@ -344,11 +344,65 @@ class Analyzer:
         return out
 
     def branch_nodes(self, f, pred, value, expand='paths'):
+        """CFG nodes reached when a test satisfying pred evaluates to value.
+        The predicate is tried on the test as written and on its equivalent
+        spellings: operands of a comparison swapped, the comparison negated
+        (`a != b` False is `a == b` True: the branch is inverted), a local
+        that caches an access path replaced by that path."""
         c = self.cfg(f)
+        from .rules import substitute_locals
         out = []
-        for t in self.test_nodes(f, pred, expand):
-            out.extend(c.branch(t, value))
+        for n in c.nodes.values():
+            if n.kind != 'test':
+                continue
+            bases = [n.ast]
+            if expand and any(isinstance(x, ast.Name)
+                              for x in ast.walk(n.ast)):
+                e2 = substitute_locals(f, n.ast,
+                                       paths_only=expand != 'all')
+                if src(e2) != src(n.ast):
+                    bases.append(e2)
+            done = False
+            for b in bases:
+                for form, pol in _spellings(b):
+                    try:
+                        hit = pred(form)
+                    except (AttributeError, IndexError, TypeError):
+                        hit = False
+                    if hit:
+                        out.extend(c.branch(n, value if pol else not value))
+                        done = True
+                        break
+                if done:
+                    break
         return out
+
+
+_FLIP = {ast.Eq: ast.NotEq, ast.NotEq: ast.Eq, ast.In: ast.NotIn,
+         ast.NotIn: ast.In, ast.Is: ast.IsNot, ast.IsNot: ast.Is,
+         ast.Lt: ast.GtE, ast.GtE: ast.Lt, ast.Gt: ast.LtE, ast.LtE: ast.Gt}
+_SWAP = {ast.Eq: ast.Eq, ast.NotEq: ast.NotEq, ast.Lt: ast.Gt,
+         ast.Gt: ast.Lt, ast.LtE: ast.GtE, ast.GtE: ast.LtE}
+
+
+def _spellings(e):
+    """(equivalent form, polarity) of a test atom: polarity False means the
+    form is the negation of e."""
+    yield e, True
+    if not (isinstance(e, ast.Compare) and len(e.ops) == 1):
+        return
+    op = type(e.ops[0])
+    a, b = e.left, e.comparators[0]
+
+    def mk(o, x, y):
+        return ast.copy_location(ast.Compare(left=x, ops=[o()],
+                                             comparators=[y]), e)
+    if op in _FLIP:
+        yield mk(_FLIP[op], a, b), False
+    if op in _SWAP:
+        yield mk(_SWAP[op], b, a), True
+        if _SWAP[op] in _FLIP:
+            yield mk(_FLIP[_SWAP[op]], b, a), False
 
 
 # (3) method names shared with builtin containers / third-party objects: the
